@@ -197,7 +197,41 @@ def run(ctx):
         if not np.allclose(np.array(rt, dtype=np.float64), np.array(r, dtype=np.float64), atol=2e-3):
             ctx.violation('NumPy and torch tilt_towards differ: %s vs %s' % (r, rt), {'location': a, 'lookat': b},
                           {'what': 'np_vs_torch', 'fn': 'tilt_towards'})
+    double_precision_pipeline(ctx)
 
+
+def double_precision_pipeline(ctx):
+    """a program that runs in double precision (torch.set_default_dtype(torch.float64)) and writes its angles as whole numbers - `torch.tensor([0, 45, 0])`,
+    an integer tensor - gets rotations of double-precision quality: orthonormal to 1e-12, distances kept to 1e-12, equal to the NumPy (float64) rotation"""
+    import odak.tools as NT
+    import odak.learn.tools as LT
+    from ..lib import settings as ST
+    rng = ctx.rng
+    with ST.default_dtype_float64():
+        for ang in ([0, 45, 0], [30, -60, 90], [17, 133, -250], [rng.randrange(-360, 360) for _ in range(3)], [1, 2, 3]):
+            for mode in ('XYZ', 'ZYX', 'XZY'):
+                for adt in (torch.int64, torch.int32, torch.float64):
+                    ctx.case(('double_precision', tuple(ang), mode, str(adt)), True)
+                    ctx.count('double_precision_pipeline/angles as %s' % str(adt).replace('torch.', ''))
+                    rec = {'angles': ang, 'mode': mode, 'angle_dtype': str(adt), 'setting': 'torch.set_default_dtype(torch.float64)'}
+                    pts = torch.tensor([[rng.uniform(-1, 1) for _ in range(3)] for _ in range(6)], dtype=torch.float64)
+                    try:
+                        out = LT.rotate_points(pts, angles=torch.tensor([ang], dtype=adt), mode=mode)
+                        mats = [LT.rotmatx(torch.tensor([ang[0]], dtype=adt)), LT.rotmaty(torch.tensor([ang[1]], dtype=adt)), LT.rotmatz(torch.tensor([ang[2]], dtype=adt))]
+                    except Exception:
+                        ctx.count('double_precision_pipeline/rejected')
+                        continue
+                    want = NT.rotate_points(pts.numpy().copy(), angles=[float(a) for a in ang], mode=mode)
+                    want = np.asarray(want[0] if isinstance(want, (list, tuple)) else want, dtype=np.float64)
+                    got = out[0].double().numpy()
+                    orth = max(float((m.double() @ m.double().T - torch.eye(3, dtype=torch.float64)).abs().max()) for m in mats)
+                    dd = np.abs(np.linalg.norm(got[:, None] - got[None], axis=-1) - np.linalg.norm(pts.numpy()[:, None] - pts.numpy()[None], axis=-1)).max()
+                    if orth > 1e-12 or dd > 1e-12 or np.max(np.abs(got - want)) > 1e-12:
+                        ctx.violation('in a double-precision program (default dtype float64) torch rotation by the %s angles %s, mode %s, is of single-precision quality: '
+                                      'axis matrices off orthonormal by %.3g, distances changed by %.3g, differs from the NumPy rotation by %.3g'
+                                      % (str(adt).replace('torch.', ''), ang, mode, orth, dd, float(np.max(np.abs(got - want)))), rec,
+                                      {'api': 'torch', 'what': 'double_precision_pipeline', 'angle_dtype': str(adt)})
+                        return
 
 def replay(ctx, rep):
     import odak.tools as NT
